@@ -38,7 +38,8 @@ ASSUMPTIONS = ["pvm/ref/ofactions.py states the 1.0 action semantics",
 REQUIRED = ["cases", "emitted_frames_compared", "rewrites_checked",
             "checksums_verified", "flood_all_cases", "suppressed_by_port_rule",
             "ingress_dropped", "counters_compared", "controller_outputs",
-            "flow_hits", "packet_outs"]
+            "flow_hits", "packet_outs",
+            "frames_with_ports_only_inside_their_payload"]
 TIMEOUT = {"quick": 900, "thorough": 7200}
 
 NPORTS = 5
@@ -118,8 +119,32 @@ def canonical (raw):
   ipd = d.get("ip")
   if ipd is not None:
     if "udp" in d and d["udp"]["csum"] == 0: return False
-    if "icmp" in d and d["icmp"]["type"] in (3, 11): return False
+    if "icmp" in d and d["icmp"]["type"] in (3, 11):
+      # ... unless the quote is a complete, valid datagram: that one the
+      # library has no reason to alter
+      return _complete_quote(raw[ipd["l4_off"] + 8:ipd["end"]])
   return True
+
+
+def _complete_quote (q):
+  from pvm.ref import inet
+  if len(q) < 28 or q[0] != 0x45: return False
+  tl = struct.unpack("!H", q[2:4])[0]
+  if tl != len(q) or inet.csum(q[:20]) != 0: return False
+  if struct.unpack("!H", q[6:8])[0] & 0x3fff: return False
+  proto = q[9]
+  if proto == 17:
+    if struct.unpack("!H", q[24:26])[0] != tl - 20: return False
+    if q[26:28] == b"\0\0": return False
+  elif proto == 6:
+    if tl < 40 or (q[32] >> 4) != 5: return False
+  else:
+    return False
+  seg = q[20:]
+  return inet.l4_csum4(q[12:16], q[16:20], proto,
+                       seg[:6 if proto == 17 else 16] + b"\0\0" +
+                       seg[8 if proto == 17 else 18:]) == \
+      struct.unpack("!H", seg[6:8] if proto == 17 else seg[16:18])[0]
 
 
 def expected_for (raw, actions, in_port, cfg, via, table_flow, stay):
@@ -172,6 +197,8 @@ def run_case (case, rep):
     rep.count("non_canonical_frames_skipped")
     return None
   rep.count("cases")
+  if case.get("desc", {}).get("kind") in ("icmp_quote", "gre_ip"):
+    rep.count("frames_with_ports_only_inside_their_payload")
   try:
     rig.set_config(cfg)
     rig.clear_flows()
@@ -351,7 +378,8 @@ def gen_action (rng, allow_table):
 def gen_case (rng):
   via = rng.choice(["packet_out", "flow", "flow"])
   kind = rng.choice(["tcp", "udp", "icmp", "arp_req", "other", "tcp_opts",
-                     "ipother", "frag_later", "frag_first", "tcp", "udp"])
+                     "ipother", "frag_later", "frag_first", "tcp", "udp",
+                     "icmp_quote", "gre_ip"])
   dst = None
   if rng.random() < 0.1: dst = OA.STP_MAC
   raw, desc = framegen.gen_frame(rng, kind, pad=False, dst=dst,
